@@ -84,6 +84,7 @@ type DeployCfg struct {
 	PickUnsorted bool              `json:"pickUnsorted,omitempty"`
 	PickFixed    []uint16          `json:"pickFixed,omitempty"` // silent mode: members returned for every topic (truncated to the expected count)
 	PSMsgLen     int               `json:"psMsgLen,omitempty"`
+	PickDelayMs  int               `json:"pickDelayMs,omitempty"` // silent mode: the member selection callback takes this long on the simulated clock
 }
 
 type Deployment struct {
@@ -229,6 +230,13 @@ func (d *Deployment) buildNode(id uint16) {
 					expected = len(cfg.PickFixed)
 				}
 				return append([]uint16(nil), cfg.PickFixed[:expected]...)
+			}
+		}
+		if cfg.PickDelayMs > 0 {
+			inner := pick
+			pick = func(topic []byte, expected int) []uint16 {
+				time.Sleep(time.Duration(cfg.PickDelayMs) * time.Millisecond)
+				return inner(topic, expected)
 			}
 		}
 		p = threshold.SilentScheme(id, lg, kgf, sf, cfg.Threshold, send, d.membership, pick)
